@@ -25,6 +25,7 @@ Theorem ok_C14_sound njobs tr vals table fc late : ok_C14 njobs tr vals table fc
     lookup_row j table = [(c, ro)] /\                                    (* exactly one row, with that status *)
     (straddles j tr = true -> told_before_s2 j tr = true) /\           (* running across the deadline: told to cancel in time *)
     (In CANCELLING (ws_of (proj j tr)) -> c = CANCELLED) /\              (* ... and reported CANCELLED *)
+    born_after_s2 j tr = false /\                                        (* not submitted long after the expiry *)
     (returned s = true -> lookup_val j vals = Some ro).                  (* the value it returned is the one in the table *)
 Proof.
   unfold ok_C14. destruct (first_bad _ _) eqn:F; [discriminate|].
@@ -40,6 +41,7 @@ Proof.
   destruct (forward_only _ _ R) as (W1 & W2 & W3). rewrite <- W1 in H.
   destruct (straddles j tr && negb (told_before_s2 j tr)) eqn:S6; [discriminate|].
   destruct (mem_st CANCELLING (ws_of (proj j tr)) && st_eqb c DONE) eqn:S7; [discriminate|].
+  destruct (born_after_s2 j tr) eqn:S9; [discriminate|].
   exists s, c, ro. repeat split; try assumption.
   - intros Hs. rewrite Hs in S6. cbn in S6. apply negb_false_iff in S6. exact S6.
   - intros Hc. apply mem_st_In in Hc. rewrite Hc in S7. cbn in S7.
